@@ -83,12 +83,37 @@ def check_C02(b, A):
     if A['mnem'] in ('fadd', 'fmul', 'fsub', 'fsubr', 'fdiv', 'fdivr') and [o[0] for o in A['ops']] == ['st', 'st'] and A['ops'][0][1] == 0:
         # one-operand spelling of the x87 arithmetic register form: "fadd st(i)" denotes "fadd st, st(i)"
         variants.append((A, False, '%s st(%d)' % (A['mnem'], A['ops'][1][1])))
+    # every spelling the assembler may be given for the same instruction is an accepted line in its own right: the AT&T variants GNU as
+    # accepts, the presentation rewrites of C19 (term order, split displacement, number base ...), the condition-code aliases
+    try:
+        for t in asmgen.render_att_variants(A)[1:]:
+            variants.append((A, True, t))
+    except asmgen.Unprintable:
+        pass
+    try:
+        base, vs = spellings(A)
+        for (tag, txt, att) in vs:
+            if tag in ('index-first', 'disp-first', 'disp-outside', 'disp-middle', 'split-disp', 'split-disp-lead', 'scale-first', 'hex', 'signed'):
+                variants.append((A, att, txt))
+    except asmgen.Unprintable:
+        pass
+    for alias in cc_aliases(A['mnem']):
+        V = dict(A); V['mnem'] = alias
+        try:
+            variants.append((A, False, asmgen.render_intel(V, {'signed': False})))
+            for t in asmgen.render_att_variants(V):
+                variants.append((A, True, t))
+        except asmgen.Unprintable:
+            pass
+    seen_lines = set()
     for (V, att, forced) in variants:
         if True:
             try:
                 line = forced if forced is not None else (asmgen.render_att(V) if att else asmgen.render_intel(V, {'signed': False}))
             except asmgen.Unprintable:
                 continue
+            if (att, line) in seen_lines: continue
+            seen_lines.add((att, line))
             cands, crash = safe_asm(line, att)
             if cands is None:
                 continue
@@ -102,6 +127,18 @@ def check_C02(b, A):
                 elif not asmgen.same_instruction(V, B):
                     res.append((tag + '-meaning', line, 'candidate %s of %r is %s' % (c.hex(), line, describe(B))))
     return res
+
+CC_ALIASES = [('o',), ('no',), ('b', 'c', 'nae'), ('ae', 'nb', 'nc'), ('e', 'z'), ('ne', 'nz'), ('be', 'na'), ('a', 'nbe'), ('s',), ('ns',), ('p', 'pe'), ('np', 'po'),
+              ('l', 'nge'), ('ge', 'nl'), ('le', 'ng'), ('g', 'nle')]
+def cc_aliases(mnem):
+    """the other architectural spellings of a conditional mnemonic (jz = je, setpe = setp, cmovnae = cmovb ...)"""
+    for stem in ('cmov', 'set', 'j'):
+        if mnem.startswith(stem) and mnem not in ('jmp', 'jmpf', 'jecxz', 'jcxz'):
+            cc = mnem[len(stem):]
+            for grp in CC_ALIASES:
+                if cc in grp:
+                    return [stem + x for x in grp if x != cc]
+    return []
 
 def describe(B):
     from bounded import asmgen
@@ -167,6 +204,13 @@ def check_C09_local(b, A):
     except Exception:
         pass
     key = '%s %s' % (A['mnem'], opsig(A))
+    # a rendering is a function of the instruction: asking again (in either order of the syntaxes) gives the same text
+    try:
+        ti2 = str(ins).strip(); ta2 = ins.__str__('att_syntax binutils').strip() if ta is not None else None
+        if (ti is not None and ti2 != ti) or (ta is not None and ta2 != ta):
+            res.append(('render-repeat', key, '%s renders as %r / %r first and as %r / %r when asked again' % (b.hex(), ti, ta, ti2, ta2)))
+    except Exception:
+        pass
     if ti is not None:
         c, _ = safe_asm(ti)
         if c is None or b not in c:
@@ -316,6 +360,37 @@ def _work(job):
         if not r: out['ok'] += 1
         for (clause, k2, msg) in r:
             fail(clause, key if prop != 'C09' else k2, {'bytes': b.hex(), 'A': A}, msg)
+    if prop == 'C19':
+        # x87 register forms: the AT&T spelling has historical quirks (operand order, fsub/fsubr and fdiv/fdivr exchanged for some forms),
+        # so the reference assembler decides which AT&T lines are transliterations: those GNU as assembles to the same bytes as the Intel line
+        x87 = []
+        for b, A in items:
+            if A['mnem'].startswith('f') and A['ops'] and all(o[0] == 'st' for o in A['ops']) and not A.get('rep') and not A['prefixes']:
+                try: li = asmgen.render_intel(A)
+                except asmgen.Unprintable: continue
+                m = A['mnem']
+                sw = {'fsub': 'fsubr', 'fsubr': 'fsub', 'fdiv': 'fdivr', 'fdivr': 'fdiv', 'fsubp': 'fsubrp', 'fsubrp': 'fsubp', 'fdivp': 'fdivrp', 'fdivrp': 'fdivp'}.get(m)
+                ops = ['%%st(%d)' % o[1] for o in A['ops']]
+                cands = []
+                for mm in ([m] + ([sw] if sw else [])):
+                    cands.append('%s %s' % (mm, ', '.join(reversed(ops))))
+                    cands.append(('%s %s' % (mm, ', '.join(reversed(ops)))).replace('%st(0)', '%st'))
+                x87.append((b, A, li, sorted(set(cands))))
+        gi = asmgen.gnu_as([x[2] for x in x87], 'intel')
+        flat = [(k, t) for k, x in enumerate(x87) for t in x[3]]
+        ga = asmgen.gnu_as([t for _, t in flat], 'att')
+        for (k, t), e in zip(flat, ga):
+            b, A, li, _ = x87[k]
+            if e is None or gi[k] is None or e != gi[k]: continue           # not a transliteration according to GNU as
+            out['gas_lines'] += 1
+            c0, _ = safe_asm(li)
+            c1, _ = safe_asm(t, True)
+            key = '%s %s' % (A['mnem'], opsig(A))
+            if c0 is None: continue
+            if c1 is None:
+                fail('x87-att-rejected', key, {'bytes': b.hex(), 'A': A, 'text': t}, '%r assembles but its AT&T transliteration %r (GNU as gives %s for both) is rejected' % (li, t, e.hex()))
+            elif set(c1) != set(c0):
+                fail('x87-att-differs', key, {'bytes': b.hex(), 'A': A, 'text': t}, '%r -> %s but its AT&T transliteration %r -> %s (GNU as gives %s for both)' % (li, sorted(x.hex() for x in c0)[:3], t, sorted(x.hex() for x in c1)[:3], e.hex()))
     if prop == 'C09':
         # external function: the real GNU as, both syntax modes, one invocation per batch
         for pend, syn in ((pend_i, 'intel'), (pend_a, 'att'), (pend_o, 'att-objdump')):
@@ -344,12 +419,21 @@ def replay(prop, item, clause):
         except Exception:
             canon = False
         r = check_C03(b, A, canon)
-    elif prop == 'C19': r = check_C19(b, A)
+    elif prop == 'C19':
+        if clause.startswith('x87-att'):
+            li, t = asmgen.render_intel(A), item['text']
+            gi, ga = asmgen.gnu_as([li], 'intel')[0], asmgen.gnu_as([t], 'att')[0]
+            c0, _ = safe_asm(li); c1, _ = safe_asm(t, True)
+            print('Intel %r: GNU as %s, miasmX %s' % (li, gi and gi.hex(), [x.hex() for x in (c0 or [])]))
+            print('AT&T  %r: GNU as %s, miasmX %s' % (t, ga and ga.hex(), [x.hex() for x in (c1 or [])] if c1 is not None else 'rejected'))
+            if gi is None or gi != ga or c0 is None: return 0
+            return 1 if (c1 is None or set(c1) != set(c0)) else 0
+        r = check_C19(b, A)
     else:
-        r, ti, ta = check_C09_local(b, A)
+        r, ti, ta, to = check_C09_local(b, A)
         if clause.startswith('gas-'):
             syn = 'intel' if 'intel' in clause else 'att'
-            t = ti if syn == 'intel' else ta
+            t = ti if syn == 'intel' else (to if 'objdump' in clause else ta)
             e = asmgen.gnu_as([t], syn)[0]
             print('GNU as (%s): %r -> %s' % (syn, t, e.hex() if e else None))
             from specs import x86dec
